@@ -84,6 +84,13 @@ def ty_str(t):
     raise Unsupported("type " + repr(t))
 
 
+NUM_RANK = {"Int": 0, "Rat": 1, "ER": 2}
+
+
+def isnum(t):
+    return isinstance(t, str) and t in NUM_RANK
+
+
 def ty_join(a, b):
     if a is None:
         return b
@@ -91,6 +98,8 @@ def ty_join(a, b):
         return a
     if a == b:
         return a
+    if isinstance(a, str) and isinstance(b, str) and a in NUM_RANK and b in NUM_RANK:
+        return a if NUM_RANK[a] >= NUM_RANK[b] else b
     if not isinstance(a, str) and not isinstance(b, str) and a[0] == "list" and b[0] == "list":
         return ("list", ty_join(a[1], b[1]))
     if not isinstance(a, str) and not isinstance(b, str) and a[0] == "set" and b[0] == "set":
@@ -151,8 +160,8 @@ STRUCTS = {"PyOp": {"type": "String", "index": ("pyidx",)}}
 class Fn:
     """signature of a translated function, for calls"""
 
-    def __init__(self, name, params, ret, fuel):
-        self.name, self.params, self.ret, self.fuel = name, params, ret, fuel
+    def __init__(self, name, params, ret, fuel, ptypes=None):
+        self.name, self.params, self.ret, self.fuel, self.ptypes = name, params, ret, fuel, ptypes
 
 
 class Ctx:
@@ -317,9 +326,23 @@ class FnTr:
                 return "Int"
             return None
         if isinstance(e, ast.BinOp):
-            return "Int"
+            t = "Int"
+            for x in (e.left, e.right):
+                tx = self.etype(x)
+                if self.is_opt(tx):
+                    tx = tx[1]
+                if isnum(tx):
+                    t = ty_join(t, tx)
+            if isinstance(e.op, ast.Div):
+                t = ty_join(t, "Rat")       # true division: exact rationals stand for Python's floats
+            return t
         if isinstance(e, ast.UnaryOp):
-            return "Bool" if isinstance(e.op, ast.Not) else "Int"
+            return "Bool" if isinstance(e.op, ast.Not) else self.etype(e.operand)
+        if isinstance(e, ast.Call) and ast.unparse(e.func) == "math.factorial":
+            return "Int"
+        if isinstance(e, ast.Call) and ast.unparse(e.func) == "float" and len(e.args) == 1 \
+                and isinstance(e.args[0], ast.Constant) and e.args[0].value == "inf":
+            return "ER"
         if isinstance(e, (ast.Compare, ast.BoolOp)):
             return "Bool"
         if isinstance(e, ast.Tuple):
@@ -354,6 +377,12 @@ class FnTr:
             return self.oracles[e.func.id][1]
         if isinstance(e, ast.Call) and isinstance(e.func, ast.Name):
             f = e.func.id
+            if f in ("min", "max") and len(e.args) == 2:
+                t = None
+                for x in e.args:
+                    tx = self.etype(x)
+                    t = ty_join(t, tx[1] if self.is_opt(tx) else tx)
+                return t if isnum(t) else "Int"
             if f in ("min", "max", "len", "int"):
                 return "Int"
             if f == "bool":
@@ -367,6 +396,22 @@ class FnTr:
         return None
 
     # ---- expressions ----
+    def num_as(self, e, T):
+        """numeric expression `e` as a value of numeric type T (Int < Rat < ER)"""
+        te = self.etype(e)
+        if self.is_opt(te):
+            te = te[1]
+        txt = self.expr(e, "num")
+        if te == T or not isnum(te) or not isnum(T):
+            return txt
+        if te == "Int" and T == "Rat":
+            return "((%s : Int) : Rat)" % txt
+        if te == "Int" and T == "ER":
+            return "(ER.fin ((%s : Int) : Rat))" % txt
+        if te == "Rat" and T == "ER":
+            return "(ER.fin %s)" % txt
+        raise Unsupported("cannot use a %s where a %s is needed" % (te, T))
+
     def is_set(self, t):
         return t is not None and not isinstance(t, str) and t[0] == "set"
 
@@ -414,6 +459,23 @@ class FnTr:
                     and e.attr == "maxsize":
                 return "(9223372036854775807 : Int)"
             raise Unsupported("name %s" % ast.dump(e))
+        if isinstance(e, ast.BinOp) and self.etype(e) in ("Rat", "ER"):
+            T = self.etype(e)
+            a, b = self.num_as(e.left, T), self.num_as(e.right, T)
+            if isinstance(e.op, ast.Add):
+                return "(%s + %s)" % (a, b)
+            if isinstance(e.op, ast.Sub):
+                return "(%s - %s)" % (a, b)
+            if isinstance(e.op, ast.Mult):
+                return "(%s * %s)" % (a, b)
+            if isinstance(e.op, ast.Div) and T == "Rat":
+                return "(← ratDiv %s %s)" % (a, b)
+            raise Unsupported("operator %s on %s" % (type(e.op).__name__, T))
+        if isinstance(e, ast.Call) and ast.unparse(e.func) == "math.factorial" and len(e.args) == 1:
+            return "(← pyFactorial %s)" % self.expr(e.args[0], "num")
+        if isinstance(e, ast.Call) and ast.unparse(e.func) == "float" and len(e.args) == 1 \
+                and isinstance(e.args[0], ast.Constant) and e.args[0].value == "inf":
+            return "ER.inf"
         if isinstance(e, ast.BinOp):
             a, b = self.expr(e.left, "num"), self.expr(e.right, "num")
             if isinstance(e.op, ast.Add):
@@ -505,6 +567,11 @@ class FnTr:
                 return "[]"
             if f == "bool" and len(e.args) == 1:
                 return "(decide %s)" % self.cond_pure(e.args[0])
+            if f == "int" and len(e.args) == 1 and self.etype(e.args[0]) == "Rat":
+                return "(ratTrunc %s)" % self.expr(e.args[0], "num")
+            if f in ("min", "max") and len(e.args) == 2 and not e.keywords and self.etype(e) in ("Rat", "ER"):
+                T = self.etype(e)
+                return "(%s %s %s)" % (f, self.num_as(e.args[0], T), self.num_as(e.args[1], T))
             if f == "int" and len(e.args) == 1 and self.etype(e.args[0]) == "Bool":
                 return "(if %s then (1 : Int) else (0 : Int))" % self.cond_pure(e.args[0])
             if f == "int" and len(e.args) == 1 and self.etype(e.args[0]) is not None and \
@@ -519,12 +586,15 @@ class FnTr:
                     if fuel:
                         self.uses_fuel = True
                 args = [None] * len(params)
+                ptys = (self.ctx.fns[f].ptypes if f in self.ctx.fns and self.ctx.fns[f].ptypes else {}) \
+                    if f != self.pname else self.ptypes
                 for i, a in enumerate(e.args):
-                    args[i] = self.expr(a, "num")
+                    args[i] = self.num_as(a, ptys.get(params[i])) if isnum(ptys.get(params[i])) else self.expr(a, "num")
                 for kw in e.keywords:
                     if kw.arg not in params:
                         raise Unsupported("keyword %s" % kw.arg)
-                    args[params.index(kw.arg)] = self.expr(kw.value, "num")
+                    args[params.index(kw.arg)] = self.num_as(kw.value, ptys.get(kw.arg)) \
+                        if isnum(ptys.get(kw.arg)) else self.expr(kw.value, "num")
                 if any(a is None for a in args):
                     raise Unsupported("call of %s with defaulted arguments" % f)
                 return "(← %s %s%s)" % (lean, "fuel " if fuel else "", " ".join(args))
@@ -547,7 +617,9 @@ class FnTr:
     def effectful(self, e):
         """can evaluating `e` raise / need the monad? (division, calls of translated functions, unwrapping)"""
         for x in ast.walk(e):
-            if isinstance(x, ast.BinOp) and isinstance(x.op, (ast.FloorDiv, ast.Mod)):
+            if isinstance(x, ast.BinOp) and isinstance(x.op, (ast.FloorDiv, ast.Mod, ast.Div)):
+                return True
+            if isinstance(x, ast.Call) and ast.unparse(x.func) == "math.factorial":
                 return True
             if isinstance(x, ast.Call) and isinstance(x.func, ast.Name) and (
                     x.func.id == self.pname or x.func.id in self.ctx.fns or x.func.id in self.oracles):
@@ -611,6 +683,11 @@ class FnTr:
         sym = {ast.Lt: "<", ast.LtE: "≤", ast.Gt: ">", ast.GtE: "≥", ast.Eq: "=", ast.NotEq: "≠"}.get(type(op))
         if sym is None:
             raise Unsupported("comparison %s" % type(op).__name__)
+        tja = ta[1] if self.is_opt(ta) else ta
+        tjb = tb[1] if self.is_opt(tb) else tb
+        if isnum(tja) and isnum(tjb) and tja != tjb:
+            T = ty_join(tja, tjb)
+            return "(%s %s %s)" % (self.num_as(a, T), sym, self.num_as(b, T))
         want = "num"
         return "(%s %s %s)" % (self.expr(a, want), sym, self.expr(b, want))
 
@@ -1009,6 +1086,9 @@ class FnTr:
                     val = "(some %s)" % val
                 if not self.is_opt(t) and isinstance(st, ast.Assign) and self.is_opt(self.etype(st.value)):
                     val = self.expr(st.value, "num")
+                if t in ("Rat", "ER"):
+                    val = self.num_as(st.value if isinstance(st, ast.Assign) else
+                                      ast.BinOp(left=st.target, op=st.op, right=st.value), t)
                 if isinstance(st, ast.Assign) and self.etype(st.value) == ("pyidx",) and (t == "Int" or t == ("opt", "Int")):
                     val = self.expr(st.value, "num")
                     if self.is_opt(t):
@@ -1056,6 +1136,8 @@ class FnTr:
                     raise Unsupported("return inside a loop / generator (line %d)" % st.lineno)
                 if st.value is None:
                     out.append("%sreturn ()" % ind)
+                elif self.ret in ("Rat", "ER") and isnum(self.etype(st.value)):
+                    out.append("%sreturn %s" % (ind, self.num_as(st.value, self.ret)))
                 elif self.ret_wrap and not self.is_opt(self.etype(st.value)):
                     out.append("%sreturn (some %s)" % (ind, self.expr(st.value)))
                 elif self.is_opt(self.etype(st.value)) and not self.is_opt(self.ret):
@@ -1515,6 +1597,9 @@ FUNCTIONS = [
     ("mixed.py", "mixed_step_memoization", "mixed_step_memoization", {}, {"recursive": True, "cache_step": True}),
     ("hrevolve_sequences/basic_functions.py", "argmin", "argmin", {"list": ("list", "Int")}, {}),
     ("mixed.py", "mixed_steps_tabulation", "mixed_steps_tabulation", {}, {}),
+    ("hrevolve_sequences/basic_functions.py", "beta", "beta", {}, {}),
+    ("hrevolve_sequences/periodic_disk_revolve.py", "mxrr_close_formula", "mxrr_close_formula",
+     {"uf": "Rat", "rd": "Rat", "wd": "Rat"}, {}),
     ("hrevolve.py", "_convert_action", "convert_action", {"action": ("struct", "PyOp")}, {"split_dict_keys": True}),
     ("hrevolve.py", "_last_reads", "last_reads", {"schedule": ("list", ("struct", "PyOp"))}, {}),
 ]
@@ -1669,7 +1754,7 @@ def generate(repo):
                       cache_step=has_cache, src="%s:%d-%d" % (f, node.lineno, node.end_lineno))
             text, fuel = tr.emit()
             (late_chunks if f == "hrevolve.py" else chunks).append(text)
-            ctx.fns[qual.split(".")[-1]] = Fn(lean, tr.params, tr.ret, fuel)
+            ctx.fns[qual.split(".")[-1]] = Fn(lean, tr.params, tr.ret, fuel, dict(tr.ptypes))
             status[lean] = "ok"
         except (Unsupported, SyntaxError, OSError, KeyError, IndexError, TypeError, AttributeError) as e:
             status[lean] = "untranslatable: %s: %s" % (type(e).__name__, e)
